@@ -93,7 +93,7 @@ def enc_shape(lens, types=None, maxb=64, minb=0, api=None):
 
 
 def enc_in_max(d):
-    return sum(d.get("L%d" % i, 0) + 16 for i in range(d["K"])) + 16
+    return sum(d.get("L%d" % i, 0) + 20 for i in range(d["K"])) + 16
 
 
 ENC_SYM = ("all payload bytes, timestamps, interface/vendor ids, common flags, protocol version, "
@@ -107,7 +107,8 @@ ENC_QUICK = [
     enc_shape([2], maxb=25), enc_shape([8], [0xFF]), enc_shape([8], [2]),
     enc_shape([8, 8]), enc_shape([8, 16]), enc_shape([8, 15]), enc_shape([8, 17]), enc_shape([4, 4, 16], maxb=80), enc_shape([8, 8], [1, 3]), enc_shape([8, 41]), enc_shape([41, 8]), enc_shape([8, 33]),
     enc_shape([8, 8], minb=64), enc_shape([8, 8], api=2),
-    enc_shape([41, 8], minb=64), enc_shape([41, 8], minb=50), enc_shape([41, 8, 8], minb=64),   # the padded frame of a last segment must not take the next packet
+    enc_shape([41, 8], minb=64), enc_shape([41, 8], minb=50), enc_shape([41, 8, 8], minb=64),
+    enc_shape([8, 41], minb=64), enc_shape([8, 8], [1, 3], minb=64), enc_shape([8, 40]),   # a frame closed early (next packet needs its own frame / other type) is padded too   # the padded frame of a last segment must not take the next packet
 
     enc_shape([8, 8, 8]), enc_shape([8, 41, 8]), enc_shape([8, 8, 8], [1, 3, 1]), enc_shape([4, 4, 4], [3, 3, 1], maxb=64, minb=20),
     enc_shape([], api=1), enc_shape([], api=2),
@@ -161,6 +162,7 @@ def enc_twice_jobs():
                         sym=ENC_SYM + "; the earlier call's payload, timestamp and flags; the new device / stream id", outside=ENC_OUT))
     # differential form (fresh vs used real encoder): any configuration, incl. minimum > maximum
     diffs = [(enc_shape([8], maxb=40, minb=48), {"PL0": 8, "PMIN": 64, "PMAX": 100}, "quick"),
+             (enc_shape([8], maxb=64, minb=64), {"PL0": 8, "PMIN": 0, "PMAX": 48}, "quick"),     # the earlier call's maximum is below this call's minimum
              (enc_shape([8], maxb=40), {"PL0": 8, "PMIN": 64, "PMAX": 64}, "quick"),
              (enc_shape([41], maxb=40), {"PL0": 50, "PMIN": 0, "PMAX": 48, "PT0": 3}, "quick"),
              (enc_shape([8, 8], [1, 3], maxb=64, minb=30), {"PL0": 90, "PMIN": 50, "PMAX": 50}, "thorough"),
@@ -438,6 +440,7 @@ def c06_shapes():
         seq_shape2([fr(1, cnt=0), fr(2, cnt=1, tx=1), fr(3, cnt=2)], P),                         # corrupt type in the middle of a 3-segment message: no delivery with a hole
         seq_shape2([fr(1, cnt=0), fr(2, cnt=1, vx=1), fr(3, cnt=2)], P),                         # corrupt version in the middle
         seq_shape2([fr(1, cnt=0), fr(2, cnt=1, tx=1), fr(2, cnt=2), fr(3, cnt=3)], P),
+        seq_shape2([fr(1, cnt=0), fr(2, cnt=1), fr(1, cnt=2, ln=3), fr(3, cnt=3, ln=5)], P),             # a new first segment after two accepted segments: nothing of the old message survives
     ]
     t = [
         seq_shape2([fr(1, cnt=0), fr(2, cnt=1), fr(3, cnt=2), fr(3, cnt=2, dup=2)], P),
@@ -466,6 +469,10 @@ def c17_shapes():
         seq_shape2([fr(1, ep=0, cnt=0), fr(1, ep=1, cnt=0), fr(3, ep=0, cnt=1)], P),
         seq_shape2([fr(1), fr(0, kind=1), fr(0, kind=2), fr(2, cnt=1)], P),  # TECMP-routed and undersized buffers change nothing
         seq_shape2([fr(1), fr(1, cnt=7, ln=3)], P),                          # superseded by a new first segment
+        # two devices that share a stream id (and two streams of one device) with overlapping reassemblies: one completes, the other is then aborted
+        seq_shape2([fr(1, ep=0, cnt=0), fr(1, ep=1, cnt=0), fr(3, ep=0, cnt=1), fr(0, ep=1, cnt=1)], P, samedev=2),
+        seq_shape2([fr(1, ep=0, cnt=0), fr(1, ep=1, cnt=0), fr(3, ep=0, cnt=1), fr(0, ep=1, cnt=1)], P, samedev=1),
+        seq_shape2([fr(1, ep=0, cnt=0), fr(1, ep=1, cnt=0), fr(2, ep=0, cnt=5), fr(0, ep=1, cnt=1, bad=1)], P, samedev=2),
     ]
     t = [
         seq_shape2([fr(1), fr(2, cnt=1), fr(2, cnt=3), fr(3, cnt=4)], P),
@@ -504,6 +511,7 @@ def seq_family(pfx, extra_len=2, samedev=1):
         (3, 0, {}, "stale"), (3, 0, {}, "skip"), (3, 0, {"vx": 1}, "next"),
         (1, 1, {}, "next"), (0, 1, {}, "next"), (0, 1, {"bad": 2}, "next"), (3, 1, {}, "next"), (0, 1, {"kind": 1}, "next"),
         (0, 0, {"kind": 3}, "next"),   # runt frame of the own endpoint (header + 5 bytes)
+        (0, 0, {"kind": 4}, "next"),   # the same bytes behind a 0x00 first byte: routed to TECMP, too short for it
     ]
     shapes = []
     for combo in itertools.product(alpha, repeat=extra_len):
@@ -522,7 +530,7 @@ def seq_family(pfx, extra_len=2, samedev=1):
         d.update({"START0": 65534, "START1": 65535})
         shapes.append(d)
     if extra_len >= 3:
-        # 15^3 = 3375 continuations cost ~1.5 h per property; the thorough tier decides a VERIF_SEED-chosen 500 of them per
+        # 16^3 = 4096 continuations cost ~1.5 h per property; the thorough tier decides a VERIF_SEED-chosen 500 of them per
         # run (each one for all contents); successive seeds cover the family
         import random
         rnd = random.Random(1000 * pfx + int(os.environ.get("VERIF_SEED", "0") or 0))
@@ -816,7 +824,7 @@ def c01_jobs():
     # quick: generic payloads, aggregation and segmentation boundaries, mixed types; CAN
     for lens, types, kw in (
         ([8], None, {}), ([16], None, {"maxb": 40}), ([17], None, {"maxb": 40}), ([33], None, {"maxb": 40}), ([20], None, {"maxb": 40, "minb": 40}),
-        ([32], None, {"maxb": 40}), ([48], None, {"maxb": 40}), ([8, 32], None, {"maxb": 40}),   # payload = k x segment capacity (k = 2, 3): the last segment fills its frame exactly
+        ([32], None, {"maxb": 40}), ([48], None, {"maxb": 40}), ([8, 32], None, {"maxb": 40}), ([8, 33], None, {}), ([8, 40], None, {}),   # payload = k x segment capacity (k = 2, 3): the last segment fills its frame exactly
         ([8, 8], None, {}), ([8, 8], [1, 3], {}), ([8, 41], None, {}), ([41, 8], None, {}), ([8, 8, 8], [1, 3, 1], {}), ([4, 41, 4], None, {}), ([8], [0xFF], {}), ([8], [2], {}),
         ([24], None, {"pkind": 1}), ([24, 24], None, {"pkind": 1, "maxb": 100}), ([16], None, {"pkind": 3}), ([30], None, {"pkind": 8}),
     ):
